@@ -3,7 +3,7 @@
 # check of its property against it: the violation it repaired must come back (exit 1).
 # usage: tools/revert_sweep.sh [commit-prefix...]  -> /verif/seeded/REVERTS.md
 cd /verif
-OUT=/verif/seeded/REVERTS.md
+OUT=/verif/seeded/REVERTS.md; [ -n "$1" ] && OUT=/tmp/reverts-partial.md
 R=$(mktemp -d /tmp/revert-sweep-XXXXXX)
 python3 - "$@" > $R/list <<'PY'
 import json, sys
